@@ -4,7 +4,7 @@ from registry_api import T, DEFAULT_MODE_VARIANTS
 FAMILIES = {
     "codec": dict(src="codec.cpp"),
     "conv": dict(src="conv.cpp"),
-    "pool": dict(src="pool.cpp"),
+    "pool": dict(src="pool.cpp", ops=["hist", "fault"]),
 }
 
 PROPS = {
